@@ -627,6 +627,13 @@ class FakeSocket:
             return b""
         raise OSError(_errno.EAGAIN, "Resource temporarily unavailable")
 
+    def recv_into(self, buffer, nbytes=0, flags=0):
+        """As the OS does: up to len(buffer) (or nbytes) bytes are copied into the caller's buffer; returns the count."""
+        mv = memoryview(buffer)
+        data = self.recv(nbytes or len(mv))
+        mv[:len(data)] = data
+        return len(data)
+
     def send(self, data):
         w = _W()
         if self.closed:
